@@ -253,12 +253,11 @@ func (ls *List) Map(ctx context.Context, fn Object) Object {
 		return TypeErrorf("type error: list.map() received an incompatible function")
 	}
 	compiledFunc := fn.(*Function)
-	var index Int
 	mapArgs := make([]Object, 2)
 	result := make([]Object, 0, len(ls.items))
 	for i, value := range ls.items {
-		index.value = int64(i)
-		mapArgs[0] = &index
+		// a new index object per call: the callback may keep or return it
+		mapArgs[0] = NewInt(int64(i))
 		mapArgs[1] = value
 		var err error
 		var outputValue Object
